@@ -198,7 +198,7 @@ class LargeCandset(Component):
     rule = ">=1 candidate row kept and >=1 dropped"
 
     def examples(self, tier):
-        return 10 if tier == "quick" else 60
+        return 20 if tier == "quick" else 300
 
     def strategy(self, tier):
         return large_candset_case(tier)
